@@ -162,7 +162,7 @@ TEXTS = {
     "C13": {
         "text": "Machine-checked Lean 4 theorems on an exact model of the lexer: totality (lex_total), all boundaries on character boundaries (lex_char_boundaries), losslessness, single last end-of-file token, blank-only "
                 "leading whitespace, non-blank token starts, AVX2 identifier routine = scalar routine for every input, keyword lookup = "
-                "table specification for every word, position independence (scan_is_position_independent: a token does not depend on what follows it beyond three bytes); declarative specifications of the sub-scanners proved for every input (Proofs/LexSpecs): ident_maximal_munch (longest run of identifier bytes, stopping before U+3000), line_comment_spec, block_comment_spec (first closer; kind from the line break and the first-on-line flag), decimal/hex/binary_number_spec (digits, optional fraction only before a digit, optional exponent; maximal), string_literal_spec (item grammar of quoted segments and character codes; multi-line literals end at the first matching quote run), keyword_case_insensitive, and token-level forms (word/decimal/text/comment_token_spec); all for inputs of any length. The model is tied to DelphiLexer::lex by "
+                "table specification for every word, position independence (scan_is_position_independent: a token does not depend on what follows it beyond three bytes); declarative specifications of the sub-scanners proved for every input (Proofs/LexSpecs): ident_maximal_munch (longest run of identifier bytes, stopping before U+3000), line_comment_spec, block_comment_spec (first closer; kind from the line break and the first-on-line flag), decimal/hex/binary_number_spec (digits, optional fraction only before a digit, optional exponent; maximal), string_literal_spec (item grammar of quoted segments and character codes; multi-line literals end at the first matching quote run), keyword_case_insensitive, and token-level forms (word/decimal/text/comment_token_spec); compiler directives (Proofs/LexSpecs2): directive_name_spec, directive_kind_spec (table of the eight conditional names, case-insensitive), plain_directive_spec (first closer), directive_expr_end_spec (an inductive grammar DirEnd/DirItem of what the {$if}/{$elseif} expression scanner skips - nested comments, text literals, // comments, nested directives - proved equivalent to the scanner, total and deterministic), directive_spec; ampersand tokens (ampersand_spec); assembler mode (asm_mode_spec: entered by the keyword asm not following '.', left by end; asm_label_spec, asm_number_spec, asm_text_literal_spec); all for inputs of any length. The model is tied to DelphiLexer::lex by "
                 "token-by-token differential execution on every run.",
         "design_ref": "DESIGN.md section 5 (C13)",
         "note": "Trusted: Lean kernel (axioms propext, Classical.choice, Quot.sound only), the translator of the keyword/dispatch tables, "
